@@ -6,6 +6,7 @@ import (
 	"fmt"
 	"math/rand"
 	"os"
+	"strings"
 	"sync"
 	"time"
 
@@ -413,7 +414,13 @@ func CmdProcessorRun(args []string, seed int64) int {
 		return 2
 	}
 	var runs int
-	fmt.Sscan(args[0], &runs)
+	var oneSeed int64
+	if strings.HasPrefix(args[0], "seed=") { // replay of one recorded scenario
+		fmt.Sscan(args[0][5:], &oneSeed)
+		runs = 1
+	} else {
+		fmt.Sscan(args[0], &runs)
+	}
 	out, closeOut, err := openTrace(args[1])
 	if err != nil {
 		fmt.Fprintln(os.Stderr, err)
@@ -436,7 +443,11 @@ func CmdProcessorRun(args []string, seed int64) int {
 			defer wg.Done()
 			for k := range jobs {
 				log := &scenLog{}
-				wd, err := RunProcessorScenario(seed*1000003+int64(k), k, log, st)
+				sd := seed*1000003 + int64(k)
+				if oneSeed != 0 {
+					sd = oneSeed
+				}
+				wd, err := RunProcessorScenario(sd, k, log, st)
 				if err != nil {
 					emu.Lock()
 					if firstErr == nil {
